@@ -518,11 +518,14 @@ func c09WS(rng *rand.Rand, row map[string]interface{}) (map[string]interface{}, 
 			for _, e := range els {
 				hasSlow = hasSlow || e.slow
 			}
-			if hasSlow { // the handler has run: its response (written by its own goroutine) follows; wait for it, within reason
+			// every request with a usable id is owed a response, written by its handler's own goroutine: on a starved machine that
+			// goroutine can be overtaken by any number of sentinel round trips, so wait for the response itself, within reason
+			// (the bound is only ever spent on a tree that does not answer)
+			{
 				for j := 0; j < 50; j++ {
 					missing := false
 					for i, e := range els {
-						if !e.slow || e.idRaw == "" || e.id == "bool" || e.id == "obj" || e.id == "arr" || e.id == "null" {
+						if e.idRaw == "" || e.req == "nomethod" || e.id == "bool" || e.id == "obj" || e.id == "arr" || e.id == "null" {
 							continue
 						}
 						seen := false
@@ -533,7 +536,7 @@ func c09WS(rng *rand.Rand, row map[string]interface{}) (map[string]interface{}, 
 						}
 						missing = missing || !seen
 					}
-					if !missing && j > 0 {
+					if !missing && (j > 0 || !hasSlow) {
 						break
 					}
 					time.Sleep(time.Duration(2+8*j/10) * time.Millisecond)
